@@ -304,7 +304,17 @@ func genRecv(r *sx.Rng, small bool) sx.Tree {
 	for i := r.Intn(4); i > 0; i-- {
 		nerr = append(nerr, sx.B(r.Chance(50)))
 	}
-	return sx.T(sx.L(10), sx.Ints(pids...), sx.T(wms...), sx.T(ops...), sx.T(nerr...))
+	// partitions whose entry in the topic metadata carries an error (a leader election at startup): the receiver logs it
+	// and goes on exactly as without it
+	merr := []int64{}
+	if r.Chance(12) {
+		for _, p := range pids {
+			if r.Chance(40) {
+				merr = append(merr, p)
+			}
+		}
+	}
+	return sx.T(sx.L(10), sx.Ints(pids...), sx.T(wms...), sx.T(ops...), sx.T(nerr...), sx.Ints(merr...))
 }
 
 // ------------------------------------------------------------------ kind 11
